@@ -11,7 +11,7 @@
 (*   C11 authorization verdict = Authz oracle        C12 accounting records          *)
 (*   C13 admission = Admission!Admit   C14 no panic  C18 no secret in a log call     *)
 (* model layer ("DIV" lines): reply = Handlers!Handle(cfg, scope, continuation, req) *)
-EXTENDS Integers, Sequences, SequencesExt, FiniteSets, TLC, Json, IOUtils, Handlers, Crypt, Authz
+EXTENDS Integers, Sequences, SequencesExt, FiniteSets, TLC, Json, IOUtils, Handlers, Crypt, Authz, Span
 
 Tr == ndJsonDeserialize(IOEnv.TRACE_FILE)
 N == Len(Tr)
@@ -38,10 +38,11 @@ Tags(conds) == { c[2] : c \in { x \in conds : x[1] } }
 
 NoCfg == [secrets |-> <<>>, users |-> <<>>, deny |-> <<>>, allow |-> <<>>]
 NoReq == [c |-> -1, sid |-> <<>>, hdr |-> [maj |-> 0, min |-> 0, ty |-> 0, seq |-> 0, fl |-> 0, sid |-> <<>>, len |-> <<>>], b |-> <<>>, l |-> 0,
-          ck |-> <<>>, cb |-> <<>>, wire |-> <<>>]
+          ck |-> <<>>, cb |-> <<>>, wire |-> <<>>, h12 |-> <<>>]
 ObsInit == [req |-> NoReq, pend |-> FALSE, wr |-> 0, inv |-> 0, sinks |-> <<>>,
             t |-> << >>, reps |-> << >>, nfeed |-> << >>, iso |-> {}, bad |-> {}, noisy |-> FALSE, overlap |-> FALSE, acctpend |-> FALSE, acctdone |-> FALSE, acctb |-> <<>>,
-            ofeeds |-> <<>>, osinks |-> <<>>, oack |-> {}, ojudged |-> FALSE, pw |-> <<>>, plain |-> {}]
+            ofeeds |-> <<>>, osinks |-> <<>>, oack |-> {}, ojudged |-> FALSE, pw |-> <<>>, plain |-> {},
+            spx |-> <<>>, spcur |-> FALSE, spn |-> 0]
 EmptyFn == [x \in {} |-> 0]
 
 \* the secret configuration a connection is bound to (0 = refused), per the Admission oracle
@@ -62,6 +63,20 @@ C19Delivered(r) ==           \* request r reached a handler
    LET key == CfgKeyOf(r.c) IN
    key # <<>> /\ ~ClearFlag(r.hdr.fl) /\ r.ck # key
    /\ LenMismatch(r.hdr.ty, FromWire(key, r.hdr.sid, Ver(r.hdr), r.hdr.seq, r.hdr.fl, r.wire))
+
+\* ---- span scopes (model layer only, Span.tla): what the mirror destination must have received ----
+SpanOf(c) == IF ScopeIdx(c) = 0 THEN NoSpan
+             ELSE LET s == cfg.secrets[ScopeIdx(c)] IN IF "span" \in DOMAIN s THEN s.span ELSE NoSpan
+SpanInv(on, e) ==           \* the scope handler of a mirroring span scope was invoked: one dial
+   IF e.hid = 0 /\ o.pend /\ ~o.overlap /\ SpanMirrors(SpanOf(e.c))
+   THEN [on EXCEPT !.spcur = TRUE, !.spx = Append(@, [sp |-> SpanOf(e.c), ty |-> o.req.hdr.ty, hdr |-> o.req.h12, b |-> e.b, reps |-> <<>>])]
+   ELSE on
+SpanWr(on, e, clr) ==       \* a reply written by the handlers while that request is being handled
+   IF o.spcur /\ o.inv >= 1 /\ Len(e.b) >= 12 /\ Len(o.spx) > 0
+   THEN [on EXCEPT !.spx[Len(o.spx)].reps = Append(@, << Take(e.b, 12), clr >>)]
+   ELSE on
+SpanMirOK(e) == /\ e.k \in 1..Len(o.spx)
+                /\ LET x == o.spx[e.k] IN e.b = MirrorStream(x.sp, x.ty, x.hdr, x.b, x.reps)
 
 ErrStatus(ty) == CASE ty = 1 -> 7 [] ty = 2 -> 17 [] ty = 3 -> 2 [] OTHER -> -1
 
@@ -227,7 +242,8 @@ Next ==
         [] e.e = "feed" ->
              /\ (IF o.acctpend /\ ~o.noisy THEN PrintT(<< "PV", {"C12"}, sc, l, "norecord" >>) ELSE TRUE)
              /\ LET h == DecHeader(e.h).v  key == << e.c, h.sid >> IN
-                o' = [o EXCEPT !.acctpend = FALSE, !.acctdone = FALSE, !.req = [c |-> e.c, sid |-> h.sid, hdr |-> h, b |-> ClrTab[l], l |-> l, ck |-> e.ck, cb |-> e.cb, wire |-> e.b],
+                o' = [o EXCEPT !.acctpend = FALSE, !.acctdone = FALSE, !.req = [c |-> e.c, sid |-> h.sid, hdr |-> h, b |-> ClrTab[l], l |-> l, ck |-> e.ck, cb |-> e.cb, wire |-> e.b, h12 |-> e.h],
+                               !.spcur = FALSE,
                                !.pend = TRUE, !.wr = 0, !.inv = 0, !.sinks = <<>>,
                                \* the password this request presents, decided on the transcript as it stands when the request arrives
                                \* (a log call made after the reply was written still belongs to this request)
@@ -248,7 +264,7 @@ Next ==
                                   << o.pend /\ C19Delivered(o.req), "C19" >>,
                                   \* what the handler is given is what the client obfuscated with the connection's secret
                                   << o.pend /\ ~ClearFlag(o.req.hdr.fl) /\ CfgKeyOf(o.req.c) # <<>> /\ o.req.ck = CfgKeyOf(o.req.c) /\ e.b # o.req.cb, "C03" >> })
-                IN o' = Quiet([o EXCEPT !.inv = @ + 1, !.bad = @ \cup new]) /\ Report(Quiet([o EXCEPT !.bad = @ \cup new]).bad \ o.bad, e)
+                IN o' = SpanInv(Quiet([o EXCEPT !.inv = @ + 1, !.bad = @ \cup new]), e) /\ Report(Quiet([o EXCEPT !.bad = @ \cup new]).bad \ o.bad, e)
              /\ UNCHANGED << sc, cfg, conns, ms, div >>
         [] e.e = "overlap" ->
              \* requests of several connections are in flight together: replies are only collected per (connection, session)
@@ -282,7 +298,7 @@ Next ==
              /\ LET on0 == ObsWr(e)
                     on == IF Admit(cfg, conns[e.c].addr) = 0
                           THEN [on0 EXCEPT !.bad = @ \cup {"C13"}] ELSE on0     \* bytes written on a connection that must be refused
-                IN o' = Quiet(on) /\ Report(Quiet(on).bad \ o.bad, e)
+                IN o' = SpanWr(Quiet(on), e, WClrTab[l]) /\ Report(Quiet(on).bad \ o.bad, e)
              /\ IF div \/ o.noisy \/ ~o.pend \/ o.inv = 0 \/ ScopeIdx(o.req.c) = 0
                 THEN UNCHANGED << ms, div >>
                 ELSE IF Len(e.b) >= 12 /\ ModelWrOK(e)
@@ -313,12 +329,18 @@ Next ==
                     new == Tags({ << pw # <<>> /\ pw \in shown /\ pw \notin plain, "C18" >>, << shown \cap keys # {}, "C18" >> })
                 IN o' = [o EXCEPT !.bad = @ \cup new] /\ (IF new = {} THEN TRUE ELSE PrintT(<< "PV", new, sc, l, "log" >>))
              /\ UNCHANGED << sc, cfg, conns, ms, div >>
+        [] e.e = "mir" ->
+             \* the octets mirror connection number k (in the order of the dials) has received by the end of the scenario
+             /\ o' = [o EXCEPT !.spn = @ + 1]
+             /\ (IF o.noisy \/ SpanMirOK(e) THEN TRUE ELSE PrintT(<< "DIV", sc, l, "span mirror differs from Span!MirrorStream" >>))
+             /\ UNCHANGED << sc, cfg, conns, ms, div >>
         [] e.e = "panic" ->
              /\ o' = [o EXCEPT !.bad = @ \cup {"C14"}] /\ PrintT(<< "PV", {"C14"}, sc, l, "panic" >>)
              /\ UNCHANGED << sc, cfg, conns, ms, div >>
         [] e.e = "end" ->
              /\ (IF o.acctpend /\ ~o.noisy THEN PrintT(<< "PV", {"C12"}, sc, l, "norecord" >>) ELSE TRUE)
              /\ LET new == IF o.noisy /\ ~o.overlap THEN {} ELSE IsoTags IN o' = [o EXCEPT !.bad = @ \cup new] /\ Report(new \ o.bad, e)
+             /\ (IF o.noisy \/ o.spn = Len(o.spx) THEN TRUE ELSE PrintT(<< "DIV", sc, l, "span: number of mirror connections differs from the number of dials" >>))
              /\ UNCHANGED << sc, cfg, conns, ms, div >>
         [] OTHER -> UNCHANGED << sc, cfg, conns, ms, div, o >>
 
